@@ -161,44 +161,52 @@ def rules(rep, m):
             r3.fail()
         else:
             inside = lambda n_: any(y is n_ for y in walk(br))
-            # the list of satisfied entries: arrays stored to inside the true branch with data of this entry
+            # the list of satisfied entries: storage written inside the true branch with this entry's data - through a
+            # subscript or through a walking pointer; the storage is identified by its root variable
             lists = set()
             for l, r_, k, n_ in inv.stores(cs):
                 lt = strip(l, casts=True)
-                if lt["kind"] == "ArraySubscriptExpr" and r_ is not None:
-                    base = render(kids(lt)[0])
+                if lt["kind"] in ("ArraySubscriptExpr", "UnaryOperator") and r_ is not None and k == "=":
+                    if lt["kind"] == "UnaryOperator" and lt.get("opcode") != "*":
+                        continue
                     rv = cx.canon(r_)
                     if inside(n_) and (rv.startswith(entry) or rv in ("*&" + entry, entry)):
-                        lists.add(base)
+                        root = inv.storage_root(cx, cs, lt)
+                        if root:
+                            lists.add(root)
             r3.instance("satisfied entries are recorded in %s" % sorted(lists))
             if not lists:
                 rep.finding(r3, cs.name, "scan:note", "the satisfied entry is not recorded for waking and removal", where=m.rel(loc(scan)))
                 r3.fail()
             else:
                 r3.ok()
-            stray = [render(l) for l, r_, k, n_ in inv.stores(cs)
-                     if strip(l, casts=True)["kind"] == "ArraySubscriptExpr" and render(kids(strip(l, casts=True))[0]) in lists
-                     and not inside(n_)]
+            stray = []
+            for l, r_, k, n_ in inv.stores(cs):
+                lt = strip(l, casts=True)
+                if lt["kind"] == "ArraySubscriptExpr" or (lt["kind"] == "UnaryOperator" and lt.get("opcode") == "*"):
+                    if inv.storage_root(cx, cs, lt) in lists and not inside(n_):
+                        stray.append(render(l))
             if stray:
                 rep.finding(r3, cs.name, "scan:note-unsatisfied", "the list of satisfied entries is also written outside the "
                             "'predicate true' branch (%s)" % stray, where=m.rel(loc(scan)))
                 r3.fail()
             else:
                 r3.ok()
-            def from_list(c):
-                return any(re.match(r"%s\[" % re.escape(a_), c) for a_ in lists)
+            def from_list(node):
+                return inv.storage_root(cx, cs, node) in lists
             # wake-ups
             scs = [y for y in walk(cs.body) if y["kind"] == "CallExpr" and callee_ref(y) == "cmb_event_schedule"]
             okw = bool(scs)
             for y in scs:
                 a = [cx.canon(z) for z in kids(y)[1:]]
-                subj_raw = render(cx.resolve(kids(y)[2]))
+                subj_node = cx.resolve(kids(y)[2])
+                subj_raw = render(subj_node)
                 good = common.sigval(a[2]) == SIG["CMB_PROCESS_SUCCESS"] and a[3] in ("cmb_time()", "sim_time") and \
                     a[0] == "wakeup_event_condition"
                 if inside(y):
                     good = good and a[1] == ent + "[0]"
                 else:
-                    good = good and from_list(subj_raw) and subj_raw.endswith(".item[0]") and inv.in_loop(cs, y)
+                    good = good and from_list(subj_node) and re.search(r"(\.|->)item\[0\]$", subj_raw) is not None and inv.in_loop(cs, y)
                 if not good:
                     okw = False
                     rep.finding(r3, cs.name, "wake", "schedules (%s) for '%s': every wake-up must go, with the success code at "
@@ -213,8 +221,10 @@ def rules(rep, m):
             okr = bool(rms)
             for y in rms:
                 a0 = cx.canon(kids(y)[1])
-                k_raw = render(cx.resolve(kids(y)[2]))
-                if a0 != heap or not from_list(k_raw) or any(z is y for z in walk(scan)) or not inv.in_loop(cs, y):
+                k_node = cx.resolve(kids(y)[2])
+                k_raw = render(k_node)
+                keyish = re.search(r"(\.|->)key$", k_raw) is not None or strip(k_node, casts=True)["kind"] in ("ArraySubscriptExpr", "UnaryOperator")
+                if a0 != heap or not from_list(k_node) or not keyish or any(z is y for z in walk(scan)) or not inv.in_loop(cs, y):
                     okr = False
             r3.instance("exactly the recorded entries are removed, after the scan: %s" % okr)
             if not okr:
@@ -223,15 +233,34 @@ def rules(rep, m):
                 r3.fail()
             else:
                 r3.ok()
-            # the second pass runs over the number of recorded entries
-            cnts = {render(kids(n_)[0]) for l, r_, k, n_ in inv.stores(cs) if k in ("++",) and inside(n_)} | \
-                {mm.group(1) for l, r_, k, n_ in inv.stores(cs) for mm in [re.search(r"(\w+)\+\+", render(n_))] if mm and inside(n_)}
-            seconds = [x for x in walk(cs.body) if x["kind"] == "ForStmt" and x is not scan and
+            # the second pass runs over exactly the recorded entries: its trip count is the counter raised in the true branch
+            cnts = set()
+            for l, r_, k, n_ in inv.stores(cs):
+                lt = strip(l, casts=True)
+                if inside(n_) and lt["kind"] == "DeclRefExpr" and (k == "++" or (k == "+=" and r_ is not None and int_value(r_) == 1)):
+                    cnts.add(lt["ref"]["name"])
+            seconds = [x for x in walk(cs.body) if x["kind"] in ("ForStmt", "WhileStmt") and x is not scan and
+                       not any(y is x for y in walk(scan)) and
                        any(callee_ref(y) in ("cmi_hashheap_remove", "cmb_event_schedule") for y in walk(x) if y["kind"] == "CallExpr")]
-            okc = bool(seconds) and all(any(cx.canon(kids(x)[2]).endswith("< %s)" % c_) for c_ in cnts) for x in seconds)
+            okc = bool(seconds)
+            trips_seen = []
+            for x in seconds:
+                iv_, g_ = inv.induction_vars(cx, cs, x)
+                tc = inv.trip_count(iv_, g_)
+                if tc is None and g_ is not None:
+                    # pointer walk from the list to list + count
+                    nm_, op_, bd_ = g_
+                    e_, d_ = iv_[nm_]
+                    mm = re.fullmatch(r"\(%s \+ (\w+)\)" % re.escape(e_), bd_)
+                    if d_ == 1 and op_ in ("!=", "<") and mm:
+                        tc = mm.group(1)
+                trips_seen.append(tc)
+                if tc not in cnts:
+                    okc = False
+            r3.instance("second pass trip count(s) %s, counter(s) %s" % (trips_seen, sorted(cnts)))
             if not okc:
                 rep.finding(r3, cs.name, "second-pass:range", "the second pass does not run over exactly the recorded entries "
-                            "(counter(s) %s)" % sorted(cnts), where=m.rel(cs.where))
+                            "(trip count %s, counter(s) %s)" % (trips_seen, sorted(cnts)), where=m.rel(cs.where))
                 r3.fail()
             else:
                 r3.ok()
